@@ -154,8 +154,29 @@ def w_schedules(ctx: core.Ctx, arg):
         burst_done = False
         ops_kinds = []
 
+        # directed script (odd jobs, first history): a descriptor is created (all reports of that transaction lost), its state is updated, it is
+        # deleted and created again; the report of the second creation arrives twice
+        script = []
+        if hno == 0 and arg['i'] % 2 == 1 and mdibops.catalog(mdib)['channel']:
+            chan = mdibops.catalog(mdib)['channel'][0]
+            script = [({'op': 'descr_create', 'parent': chan, 'handle': 'c06x', 'with_state': True, 'iface': 'classic'}, 'drop_all'),
+                      ({'op': 'metric', 'handles': ['c06x'], 'iface': 'classic'}, 'in_order'),
+                      ({'op': 'descr_delete', 'handle': 'c06x', 'iface': 'classic'}, 'in_order'),
+                      ({'op': 'descr_create', 'parent': chan, 'handle': 'c06x', 'with_state': True, 'recreate': True, 'iface': 'entity'}, 'dup_all'),
+                      ({'op': 'metric', 'handles': ['c06x'], 'iface': 'entity'}, 'dup_all')]
+        forced_ops = []
+
         def commit_some(k):
             for _ in range(k):
+                if forced_ops:
+                    op = dict(forced_ops.pop(0), seed=rng.randrange(1 << 30))
+                    mdibops.apply_op(mdib, op, memo)
+                    hist.record()
+                    hist.problems.clear()
+                    ops_kinds.append(op['op'])
+                    ctx.count('provider.transactions')
+                    ctx.count('provider.scripted_transactions')
+                    return
                 op = mdibops.gen_op(rng, mdib, memo, weights)
                 mdibops.apply_op(mdib, op, memo)
                 hist.record()
@@ -184,6 +205,10 @@ def w_schedules(ctx: core.Ctx, arg):
             return status
 
         for step in range(arg['len']):
+            scripted = None
+            if step >= 6 and script:      # after the prelude of the generator
+                forced, scripted = script.pop(0)
+                forced_ops.append(forced)
             commit_some(rng.choice([1, 1, 1, 2, 3]))
             # release held-back notifications whose time has come
             for item in list(held):
@@ -200,6 +225,18 @@ def w_schedules(ctx: core.Ctx, arg):
             if directed and step == 4 and id_changed:
                 action = 'reload_inflight'
             batch, net.pending = net.pending, []
+            if scripted == 'drop_all':
+                for n in batch:
+                    ctx.count('deliver.dropped')
+                    mon.after('drop', n, None)
+                continue
+            if scripted == 'dup_all':
+                for n in batch:
+                    deliver(n, 'in_order')
+                    deliver(n, 'dup_now')
+                continue
+            if scripted == 'in_order':
+                action = 'in_order'
             if action == 'in_order' or not batch:
                 for n in batch:
                     deliver(n, 'in_order')
@@ -403,6 +440,7 @@ def run(ctx: core.Ctx):
     ctx.floor('monitor.evaluations', 1500)
     ctx.floor('reload.inflight_late_reports_of_old_sequence', 8)
     ctx.floor('reload.inflight_bursts', 1)
+    ctx.floor('provider.scripted_transactions', 10)
     for name, n in (('deliver.stale', 20), ('deliver.duplicate', 20), ('deliver.dropped', 10), ('deliver.swap', 20), ('reload.inflight', 5),
                     ('reload.inflight_notifications', 10), ('mirror.final_comparisons', 16),
                     ('reload.buffer_lock_release_injections', 5)):
